@@ -466,9 +466,18 @@ fn line_body(g: G, p: &mut Enc) {
 }
 
 pub fn seed_line_v4(g: G) -> SecSet {
+    seed_line_legacy(g, 4)
+}
+
+/// Version 2, 3 (no maximum_operations_per_instruction field) or 4 line program.
+pub fn seed_line_legacy(g: G, version: u16) -> SecSet {
     let mut s = SecSet::default();
     let mut hdr = e(g);
-    hdr.u8(1).u8(1).u8(1).u8((-5i8) as u8).u8(14).u8(13);
+    hdr.u8(1);
+    if version >= 4 {
+        hdr.u8(1);
+    }
+    hdr.u8(1).u8((-5i8) as u8).u8(14).u8(13);
     for l in [0u8, 1, 1, 1, 1, 0, 0, 0, 1, 0, 0, 1] {
         hdr.u8(l);
     }
@@ -477,7 +486,7 @@ pub fn seed_line_v4(g: G) -> SecSet {
     hdr.cstr(b"b.c").uleb(0).uleb(0).uleb(0);
     hdr.u8(0);
     let mut rest = e(g);
-    rest.u16(4);
+    rest.u16(version);
     let mut hl = e(g);
     // header_length
     hl.offset(hdr.buf.len() as u64, g.f64_);
@@ -1023,6 +1032,8 @@ pub fn seeds() -> Vec<SeedDef> {
         SeedDef { name: "abbrev-v5", primary: 0, gen: seed_info_v5 },
         SeedDef { name: "types", primary: 2, gen: seed_types },
         SeedDef { name: "line-v4", primary: 5, gen: seed_line_v4 },
+        SeedDef { name: "line-v2", primary: 5, gen: |g| seed_line_legacy(g, 2) },
+        SeedDef { name: "line-v3", primary: 5, gen: |g| seed_line_legacy(g, 3) },
         SeedDef { name: "line-v5", primary: 5, gen: seed_line_v5 },
         SeedDef { name: "aranges", primary: 14, gen: seed_aranges },
         SeedDef { name: "addr", primary: 7, gen: seed_addr },
